@@ -309,3 +309,61 @@ package ledger
 //@   ensures result1 == nil && n > 0 ==> treehas[as(result0, ptr(SimpleLedger)).tree] == histhas[ledger.SimpleLedger.db][n] && treeval[as(result0, ptr(SimpleLedger)).tree] == histval[ledger.SimpleLedger.db][n]   [C18,C19]
 //@   ensures result1 == nil ==> fresh(as(result0, ptr(SimpleLedger)).tree)                                   [C18,C19]
 //@   ensures n > dblatest[ledger.SimpleLedger.db] ==> result1 != nil                                          [C18,C19]
+
+// ---- the ledger API as seen by the controllers (interface contracts) -----------------------------
+// Frames are stated over whole heap maps of the overlay representation: a controller never holds
+// references into it, so "some overlay map changed" is all it can observe.
+
+//@ func (l ILedger) Set(item)
+//@   requires item != nil
+//@   modifies allmaps(memItems.gotItems)
+//@   ensures result == nil
+
+//@ func (l IFinalityLedger) SetFinality(item)
+//@   requires item != nil
+//@   modifies allmaps(memItems.gotItems)
+//@   ensures result == nil
+
+//@ func (l ILedger) Get(key)
+//@   modifies allmaps(memItems.gotItems), itemkey, itemenc
+//@   ensures items_same()
+//@   ensures (result1 == nil) <==> (result0 != nil)
+//@   ensures result1 == nil ==> itemkey[result0] == key
+
+//@ func (l IFinalityLedger) GetFinality(key)
+//@   modifies allmaps(memItems.gotItems), itemkey, itemenc
+//@   ensures items_same()
+//@   ensures (result1 == nil) <==> (result0 != nil)
+//@   ensures result1 == nil ==> itemkey[result0] == key
+
+//@ func (l ILedger) Read(key)
+//@   modifies itemkey, itemenc
+//@   ensures items_same()
+//@   ensures (result1 == nil) <==> (result0 != nil)
+//@   ensures result1 == nil ==> fresh(result0) && itemkey[result0] == key
+
+//@ func (l ILedger) Del(key)
+//@   modifies allmaps(memItems.gotItems), memItems.removedKeys, allelems(memItems.removedKeys), itemkey, itemenc
+//@   ensures items_same()
+//@   ensures (result1 == nil) <==> (result0 != nil)
+
+//@ func (l IFinalityLedger) DelFinality(key)
+//@   modifies allmaps(memItems.gotItems), memItems.removedKeys, allelems(memItems.removedKeys), itemkey, itemenc
+//@   ensures items_same()
+//@   ensures (result1 == nil) <==> (result0 != nil)
+
+//@ func (l ILedger) CancelSet(key)
+//@   modifies allmaps(memItems.gotItems)
+//@   ensures result == nil
+
+//@ func (l IFinalityLedger) CancelSetFinality(key)
+//@   modifies allmaps(memItems.gotItems)
+//@   ensures result == nil
+
+//@ func (l ILedger) CancelDel(key)
+//@   modifies memItems.removedKeys, allelems(memItems.removedKeys)
+//@   ensures result == nil
+
+//@ func (l IFinalityLedger) CancelDelFinality(key)
+//@   modifies memItems.removedKeys, allelems(memItems.removedKeys)
+//@   ensures result == nil
